@@ -139,9 +139,16 @@ func vestingMonitor(w *world.World) chainsim.Monitor {
 					}
 				}
 				overpaidNow := false
+				now1 := map[string]bool{}
 				for _, d := range p1.Dests {
+					now1[d.ID] = true
 					if d.Vested > d.Amount {
 						overpaidNow = true // reported above; the shortfall below is its consequence
+					}
+				}
+				for id, d := range pd {
+					if !now1[id] && uint64(d.Vested)+paid[id] > uint64(d.Amount) {
+						overpaidNow = true // a destination removed by this call was overpaid (reported below)
 					}
 				}
 				if new(big.Int).SetUint64(uint64(p1.Balance)).Cmp(need) < 0 && (p0 == nil || !poolUnderfunded(p0)) && !overpaidNow {
